@@ -508,6 +508,7 @@ class Executor(ExprMixin, StmtMixin, Engine):
             pure_results = []
             impure = False
             self.in_anyall = getattr(self, 'in_anyall', 0) + 1
+            self.probe_calls = []
             try:
                 for s2, v in self.ev(gen.elt, probe):
                     if isinstance(v, Exc):
@@ -529,6 +530,8 @@ class Executor(ExprMixin, StmtMixin, Engine):
                     r = z3.ForAll([i], z3.Implies(z3.And(0 <= i, i < n), body))
                 yield s1, mk_bool(r)
                 continue
+            if effectful and not all(getattr(pc_, 'repeatable', False) for pc_ in self.probe_calls):
+                raise OutOfSubset('any/all over an effectful call whose contract is not repeatable', node)
             # effectful or multi-path element: opaque boolean; effects = the element's effects
             # applied zero or more times.  We continue from each resulting state of one symbolic
             # application (whose contracts' `stable` clauses describe any number of applications)
@@ -547,7 +550,7 @@ class Executor(ExprMixin, StmtMixin, Engine):
                 yield s2, fresh(BOOL, name)
 
     # ------------------------------------------------------------------ contracts at calls -
-    def bind_args(self, c, pos, kw, node):
+    def bind_args(self, c, pos, kw, node, st=None):
         vals = {}
         params = c.params
         if len(pos) > len(params):
@@ -566,7 +569,18 @@ class Executor(ExprMixin, StmtMixin, Engine):
         out = {}
         for (pn, pt, *rest) in params:
             v = vals[pn]
-            out[pn] = v if isinstance(pt, TObj) or pt is None else self.coerce(v, pt)
+            if isinstance(pt, TObj) or pt is None:
+                out[pn] = v
+                continue
+            if isinstance(v.t, TOpt) and not isinstance(pt, TOpt) and st is not None:
+                self.prove(st, z3.Not(opt_is_none(v)), 'noraise', getattr(node, 'lineno', 0),
+                           'None-argument:%s.%s' % (c.key.split(':')[1], pn))
+                v = opt_val(v)
+            elif isinstance(v.t, TNone) and not isinstance(pt, (TOpt, TNone)) and st is not None:
+                self.prove(st, z3.BoolVal(False), 'noraise', getattr(node, 'lineno', 0),
+                           'None-argument:%s.%s' % (c.key.split(':')[1], pn))
+                raise OutOfSubset('None passed for %s' % pn, node)
+            out[pn] = self.coerce(v, pt)
         return out
 
     def call_contract(self, st, c, pos, kw, node, catch=()):
@@ -574,8 +588,10 @@ class Executor(ExprMixin, StmtMixin, Engine):
         if c.inline:
             yield from self.inline_call(st, c, pos, kw, node)
             return
-        args = self.bind_args(c, pos, kw, node)
+        args = self.bind_args(c, pos, kw, node, st)
         cname = c.key.split(':')[1]
+        if getattr(self, 'in_anyall', 0):
+            self.probe_calls.append(c)
         # 1. precondition
         for j, r in enumerate(c.requires):
             g = self.spec(r, st, args, st)
@@ -703,7 +719,7 @@ class Executor(ExprMixin, StmtMixin, Engine):
             raise OutOfSubset('inline depth', node)
         fdef, seg = self.find_def(c.key)
         self.fn_hashes[c.key] = hashlib.sha256(seg.encode()).hexdigest()
-        args = self.bind_args(c, pos, kw, node)
+        args = self.bind_args(c, pos, kw, node, st)
         saved_env = st.env
         st.env = dict(args)
         self.index_loops(c.key, fdef)
@@ -805,6 +821,13 @@ class Executor(ExprMixin, StmtMixin, Engine):
         st = State()
         st.alloc = z3.Int(fresh_name('alloc0'))
         st.assume(st.alloc >= 0)
+        # every heap field array and global exists from the start, so that old() and the
+        # current state share them until written
+        for cls, fields in self.m.classes.items():
+            for f in fields:
+                self.heap_arr(st, cls, f)
+        for g in self.m.globals:
+            self.read_global(st, g)
         for (pn, pt, *rest) in c.params:
             if isinstance(pt, TObj):
                 st.env[pn] = Val(pt, None, getattr(pt, 'py', None))
